@@ -149,6 +149,16 @@ def run_content(ctx, content):
                     run(["subhypergraph_by_orders", "sizes", list(ss), keep], exp, lambda ss=ss, keep=keep: h.subhypergraph_by_orders(sizes=list(ss), keep_nodes=keep))
                     run(["subhypergraph_by_orders", "orders", [s - 1 for s in ss], keep], exp,
                         lambda ss=ss, keep=keep: h.subhypergraph_by_orders(orders=[s - 1 for s in ss], keep_nodes=keep))
+        # a size / order listed more than once selects the same hyperedges, with their original weights (once)
+        for ss in [(a, a) for a in allsizes] + [(allsizes[0], allsizes[-1], allsizes[0])]:
+            for keep in (True, False):
+                def exp2(ss=ss, keep=keep):
+                    ke = lambda e: len(e) in ss
+                    nodes = V if keep else sorted(set().union(*[set(e) for e, _, _ in content["edges"] if ke(e)]) if content["edges"] else [], key=repr)
+                    return expect(content, ke, nodes)
+                run(["subhypergraph_by_orders", "sizes", list(ss), keep], exp2, lambda ss=ss, keep=keep: h.subhypergraph_by_orders(sizes=list(ss), keep_nodes=keep))
+                run(["subhypergraph_by_orders", "orders", [s - 1 for s in ss], keep], exp2,
+                    lambda ss=ss, keep=keep: h.subhypergraph_by_orders(orders=[s - 1 for s in ss], keep_nodes=keep))
         # largest component, without and with an order/size filter: any component of maximal size is acceptable
         for f in [dict()] + [dict(size=s_) for s_ in allsizes] + [dict(order=s_ - 1) for s_ in allsizes]:
             keep = (lambda e: True) if not f else (lambda e, f=f: len(e) == (f["size"] if "size" in f else f["order"] + 1))
